@@ -14,7 +14,7 @@ NET_SRC = EVENTS_SRC + [
     'netbuf/netbuf_read.c', 'netbuf/netbuf_write.c',
 ]
 SOCK_WRAPS = ['poll', 'clock_gettime', 'recv', 'send', 'socket', 'connect', 'bind', 'fcntl',
-              'getsockopt', 'setsockopt', 'accept', 'close']
+              'getsockopt', 'setsockopt', 'accept', 'close', 'syslog', 'openlog', 'closelog']
 
 ENGINES = {
     'evloop': dict(
